@@ -105,6 +105,8 @@ func (p *printer) chr(c int, style string, inClass bool) {
 		}
 	case "cc":
 		p.str(`\c` + string(rune('A'+c-1)))
+	case "ccl":
+		p.str(`\c` + string(rune('a'+c-1)))
 	case "id":
 		p.str(`\` + string(rune(c)))
 	case "bs":
